@@ -28,7 +28,7 @@ pub fn gen_number_expr(t: &mut Tape) -> (Expr, String) {
         2 => {
             // ties, neighbours of ties, and the places where `floor(x + 0.5)` or a cast goes wrong
             let v = *t.choose(&[
-                0.5, 1.5, 2.5, 0.1, 0.25, 3.7, 3.2, 0.999, 2.0000001, 0.49999999999999994, 0.5000000000000001, 1.4999999999999998, 3.5, 4.5,
+                0.5, 1.5, 2.5, 0.1, 0.25, 3.7, 3.2, 0.999, 2.0000001, 1e-17, 5e-324, 1e-300, 2.220446049250313e-16, 1.1102230246251565e-16, 0.49999999999999994, 0.5000000000000001, 1.4999999999999998, 3.5, 4.5,
                 4503599627370497.0, 4503599627370495.5, 4503599627370496.5, 2251799813685247.5, 8388607.5, 2147483647.5, 2147483648.5, 4294967295.5,
             ]);
             if t.chance(1, 3) {
